@@ -23,6 +23,9 @@ pub mod spec_groestl;
 pub mod groestl_core;
 pub mod jh_mode;
 pub mod jh_core;
+#[path = "../spec/jh.rs"]
+pub mod spec_jh;
+pub mod jh_e8;
 pub mod skein_mode;
 #[path = "../spec/threefish.rs"]
 pub mod spec_threefish;
